@@ -242,7 +242,8 @@ def _find_shebang(source):
 
         shebang = re.match(br'^#![^\r\n]*', source)
         if shebang:
-            return shebang.group().decode(encoding)
+            # The interpreter does not validate the bytes of a comment line, so neither can we
+            return shebang.group().decode(encoding, 'replace')
     else:
         shebang = re.match(r'^#![^\r\n]*', source)
         if shebang:
